@@ -10,6 +10,7 @@
 use crate::util::*;
 use crate::world::*;
 use assets_manager::verif_hooks::{reload_id_raw, EVENTS_HANDLED};
+use assets_manager::source::Source;
 use assets_manager::{source::OwnedDirEntry, AssetCache, AssetReadGuard};
 use std::sync::atomic::{AtomicBool, AtomicU64, Ordering};
 use std::sync::Mutex;
@@ -240,6 +241,81 @@ fn run_scenario(sc: &Scenario, out_violations: &Mutex<Vec<(String, String)>>) ->
     (reloads, reads.load(Ordering::SeqCst))
 }
 
+/// Readers on ANOTHER cache's reloader thread are readers like any other: cache A's compound `Peek`
+/// reads an entry of cache B from inside its load; A is told to reload `Peek` again and again (so
+/// that code runs on A's hot-reloading thread) while B's entry is being reloaded all the time.  No
+/// read may see a mixture of two values.
+static PEEK_TARGET: std::sync::atomic::AtomicUsize = std::sync::atomic::AtomicUsize::new(0);
+static PEEK_TORN: AtomicU64 = AtomicU64::new(0);
+static PEEK_READS: AtomicU64 = AtomicU64::new(0);
+struct Peek;
+impl assets_manager::Compound for Peek {
+    fn load(cache: assets_manager::AnyCache, id: &assets_manager::SharedString) -> Result<Self, assets_manager::BoxedError> {
+        let _ = cache.raw_source().read(id, "pk")?;
+        let b = PEEK_TARGET.load(Ordering::SeqCst) as *const AssetCache<Mem>;
+        if !b.is_null() {
+            let b: &'static AssetCache<Mem> = unsafe { &*b };
+            if let Ok(h) = b.load::<TWide>("w0") {
+                let t0 = Instant::now();
+                while t0.elapsed() < Duration::from_millis(3) {
+                    let g = h.read();
+                    if uniform(&g.1).is_none() {
+                        PEEK_TORN.fetch_add(1, Ordering::Relaxed);
+                    }
+                    PEEK_READS.fetch_add(1, Ordering::Relaxed);
+                }
+            }
+        }
+        Ok(Peek)
+    }
+}
+
+fn cross_cache_scenario(out: &Mutex<Vec<(String, String)>>, millis: u64) -> u64 {
+    let mem_b = Mem::new(true);
+    mem_b.write("w0", "w", b"0");
+    let b: &'static AssetCache<Mem> = Box::leak(Box::new(AssetCache::with_source(mem_b.clone())));
+    if b.load::<TWide>("w0").is_err() {
+        return 0;
+    }
+    PEEK_TARGET.store(b as *const _ as usize, Ordering::SeqCst);
+    let mem_a = Mem::new(true);
+    mem_a.write("p", "pk", b"0");
+    let a = AssetCache::with_source(mem_a.clone());
+    if a.load::<Peek>("p").is_err() {
+        return 0;
+    }
+    let stop = AtomicBool::new(false);
+    std::thread::scope(|s| {
+        // A: reload Peek over and over (its load runs on A's reloader thread)
+        s.spawn(|| {
+            while !stop.load(Ordering::Relaxed) {
+                mem_a.send(vec![OwnedDirEntry::File("p".into(), "pk".into())]);
+                a.hot_reload();
+            }
+        });
+        // B: a stream of reloads of the wide value
+        let t0 = Instant::now();
+        let mut n = 0u64;
+        while t0.elapsed() < Duration::from_millis(millis) {
+            n += 1;
+            mem_b.write("w0", "w", n.to_string().as_bytes());
+            mem_b.send(vec![OwnedDirEntry::File("w0".into(), "w".into())]);
+            b.hot_reload();
+        }
+        stop.store(true, Ordering::Relaxed);
+    });
+    PEEK_TARGET.store(0, Ordering::SeqCst);
+    let torn = PEEK_TORN.load(Ordering::Relaxed);
+    let reads = PEEK_READS.load(Ordering::Relaxed);
+    if torn > 0 {
+        out.lock().unwrap().push((
+            "torn-read".to_string(),
+            format!("{torn} of {reads} reads of an entry of cache B made on cache A's hot-reloading thread (inside a Compound being reloaded) saw a mixture of two values"),
+        ));
+    }
+    1
+}
+
 /// A reload replaces the whole value, whatever its layout: values of alignment 1 to 64 (sizes that
 /// are several words, and an odd number of bytes for the byte-aligned one) are loaded, edited and
 /// reloaded; afterwards every part of the value shows the new content and the value that was
@@ -348,6 +424,7 @@ pub fn run(a: &Args) {
         ));
     }
     n += layout_scenario(&violations);
+    n += cross_cache_scenario(&violations, if a.thorough() { 1500 } else { 400 });
     let v = violations.into_inner().unwrap();
     if !v.is_empty() {
         let mut f = String::new();
